@@ -1,2 +1,37 @@
-/- C12 correspondence driver (stub: replaced when the property's model is built) -/
-def main : IO Unit := IO.println "stub"
+import PnVerif.Model.BBLog
+/-
+  C12 unit driver:  F <flushbuffersize> <n> v:s ...  ->  rounds "i,j|k,..." extra=<k> (model of
+  ncbbio_log_flush_core: effective buffer = min(datalogsize, flushbuffersize>0) raised to maxentrysize)
+-/
+open PnVerif.BBLog
+
+def parseEntry (t : String) : Entry :=
+  match t.splitOn ":" with
+  | [v, s] => (v == "1", s.toNat?.getD 0)
+  | _ => (false, 0)
+
+def step (line : String) : String :=
+  match (line.trimAscii.toString.splitOn " ").filter (· != "") with
+  | "F" :: fbs :: n :: rest =>
+    let es := (rest.take (n.toNat?.getD 0)).map parseEntry
+    let total := es.foldl (fun a e => a + e.2) 0 + 8
+    let maxe := es.foldl (fun a e => max a e.2) 0
+    let f := fbs.toNat?.getD 0
+    let buf := if f > 0 ∧ total > f then f else total
+    let buf := if buf < maxe then maxe else buf
+    -- index the entries so that rounds can be printed by entry number
+    let rounds := execRounds buf es.length es
+    let (_, strs) := rounds.foldl (fun (acc : Nat × List String) r =>
+        let idxs := (List.range r.length).filterMap (fun j => if (r.getD j (false, 0)).1 then some (toString (acc.1 + j)) else none)
+        (acc.1 + r.length, acc.2 ++ [String.intercalate "," idxs])) (0, [])
+    let extra := nrounds buf es - rounds.length
+    s!"{String.intercalate "|" strs} extra={extra} status=0 data=ok"
+  | _ => "bad-op"
+
+partial def loop (h : IO.FS.Stream) (out : IO.FS.Stream) : IO Unit := do
+  let line ← h.getLine
+  if line.isEmpty then return ()
+  out.putStrLn (step line)
+  loop h out
+
+def main : IO Unit := do loop (← IO.getStdin) (← IO.getStdout)
